@@ -138,6 +138,9 @@ pub enum Op {
     /// the shared builder is built this many times in a row (counts around 2^8 / 2^10; short inputs only), and the
     /// long-lived SvgBuilder renders the result as often: every result equals the first and a fresh object's
     Repeat(u16),
+    /// a rendering that FAILS: a fresh renderer (0 text, 1 SVG, 2 PNG) is given a hand-made QRCode value of an
+    /// impossible size; the call panics and the panic is caught, as a thread pool or a web server would
+    FailingRender(u8),
 }
 
 #[derive(Clone, Debug)]
@@ -162,6 +165,7 @@ fn op_json(op: &Op) -> Value {
         Op::PRenderPng => json!("p_render_png"),
         Op::ForeignMask(v, k) => json!({"foreign_mask": [v, k]}),
         Op::Repeat(n) => json!({"repeat": n}),
+        Op::FailingRender(k) => json!({"failing_render": k}),
     }
 }
 
@@ -177,6 +181,9 @@ fn op_from(v: &Value) -> Option<Op> {
     }
     if v.as_str() == Some("p_render_png") {
         return Some(Op::PRenderPng);
+    }
+    if let Some(k) = v.get("failing_render").and_then(|x| x.as_u64()) {
+        return Some(Op::FailingRender(k as u8));
     }
     if let Some(n) = v.get("repeat").and_then(|x| x.as_u64()) {
         return Some(Op::Repeat(n as u16));
@@ -672,6 +679,23 @@ pub fn check_history(h: &History, obs: &mut Obs) -> Result<(), Fail> {
                     }
                     obs.label("render:svg");
                 }
+            }
+            Op::FailingRender(k) => {
+                let _ = catch(|| {
+                    let bogus = QRCode::default(if i % 2 == 0 { 178 } else { 200 });
+                    match k % 3 {
+                        0 => {
+                            let _ = bogus.to_str();
+                        }
+                        1 => {
+                            let _ = SvgBuilder::default().to_str(&bogus);
+                        }
+                        _ => {
+                            let _ = ImageBuilder::default().to_pixmap(&bogus);
+                        }
+                    }
+                });
+                obs.label("failing_render_in_history");
             }
             Op::Repeat(n) => {
                 let n = if h.input.len() > 120 { (*n).min(260) } else { *n };
@@ -1249,6 +1273,7 @@ pub fn history_strategy() -> BoxedStrategy<History> {
                     2 => vec(svg_op(), 0..8).prop_map(Op::RenderSvg),
                     1 => vec(png_op(), 0..5).prop_map(Op::RenderPng),
                     1 => (prop_oneof![3 => 1usize..=10, 1 => 1usize..=40], 0u8..8).prop_map(|(v, k)| Op::ForeignMask(v, k)),
+                    1 => (0u8..3).prop_map(Op::FailingRender),
                     1 => prop_oneof![(0u16..4).prop_map(|d| 254 + d), (0u16..4).prop_map(|d| 1022 + d), Just(300u16), 2u16..40].prop_map(Op::Repeat),
                     3 => p_op().prop_map(Op::PSet),
                     3 => Just(Op::PRenderSvg),
